@@ -27,12 +27,13 @@ V(id) == CASE id = "a" -> From(0, <<"a">>)              \* from a import helper
            [] id = "zz" -> From(0, <<"zz">>)             \* missing
            [] id = "upa" -> From(1, <<"a">>)             \* from ..a import helper
            [] id = "b" -> From(0, <<"b">>)               \* from b import helper (d/b.incn seen from d/)
-           [] id = "item" -> [kind |-> "mod", levels |-> 0, abs |-> FALSE, segs |-> <<"a", "helper">>]  \* import a::helper
+           [] id = "item" -> [kind |-> "mod", levels |-> 0, abs |-> FALSE, segs |-> <<"a", "helper_a">>]  \* import a::helper_a
            [] id = "std" -> [kind |-> "mod", levels |-> 0, abs |-> FALSE, segs |-> <<"std", "fs">>]     \* import std::fs
-VText(id) == CASE id = "a" -> "from a import helper" [] id = "db" -> "from d.b import helper"
-               [] id = "main" -> "from main import helper" [] id = "zz" -> "from zz import helper"
-               [] id = "upa" -> "from ..a import helper" [] id = "b" -> "from b import helper"
-               [] id = "item" -> "import a::helper" [] id = "std" -> "import std::fs"
+\* the imported item names match what the driver puts into the files (helper_a in a.incn, ...)
+VText(id) == CASE id = "a" -> "from a import helper_a" [] id = "db" -> "from d.b import helper_b"
+               [] id = "main" -> "from main import entry_helper" [] id = "zz" -> "from zz import helper_z"
+               [] id = "upa" -> "from ..a import helper_a" [] id = "b" -> "from b import helper_b"
+               [] id = "item" -> "import a::helper_a" [] id = "std" -> "import std::fs"
 \* sequences of distinct vocabulary ids of length <= k
 SeqsUpTo(k) == UNION {{s \in [1..n -> Vocab] : \A i, j \in 1..n : i # j => s[i] # s[j]} : n \in 0..k}
 
@@ -51,6 +52,7 @@ MCSpec == MCInit /\ [][MCNext]_<<vars, ids>>
 TextOf(s) == [i \in 1..Len(s) |-> VText(s[i])]
 Emit == status # "run" =>
   PrintT(<<"CASE", ToJson([mode |-> "work", m |-> m, main |-> TextOf(ids.main), a |-> TextOf(ids.a), b |-> TextOf(ids.b),
-                           da |-> ids.da, visited |-> visited, status |-> status, diag |-> diag,
+                           da |-> ids.da, imps |-> [main |-> imports[Main], a |-> imports[FA], b |-> imports[FB]],
+                           visited |-> visited, status |-> status, diag |-> diag,
                            cycle |-> HasCycle(m), missing |-> HasMissing(m)])>>)
 =============================================================================
